@@ -217,7 +217,7 @@ func isGossipStep(t string) bool { return strings.HasPrefix(t, "g-") }
 func gossipChild(c *core.Ctx, j job) {
 	w := bufio.NewWriter(os.Stdout)
 	defer w.Flush()
-	res := &jobResult{Class: j.Class, ByEff: map[string]int{}, Latent: map[string]int{}}
+	res := &jobResult{Class: j.Class, ByEff: map[string]int{}, Latent: map[string]int{}, ByOwn: map[string]int{}}
 	finish := func() {
 		rj, _ := json.Marshal(res)
 		fmt.Fprintf(w, "RESULT %s\nDONE\n", rj)
@@ -321,6 +321,9 @@ func gossipChild(c *core.Ctx, j job) {
 		}
 	}
 	atomic.StoreInt32(&b.peer.running, 0)
+	if b.wal != nil {
+		b.wal.close(nil)
+	}
 	finish()
 }
 
